@@ -13,6 +13,8 @@ func Scenarios(property string, thorough bool) []driver.Scenario {
 		return c27Scenarios(thorough)
 	case "C28":
 		return c28Scenarios(thorough)
+	case "C36":
+		return c36Scenarios(thorough)
 	case "C34":
 		return c34Scenarios(thorough)
 	}
